@@ -85,6 +85,15 @@ Theorem C07_run_ack_after_latency_static : forall tb cf n sc es s,
   (if so_repl o then cf_lat_replace cf else cf_lat_place cf) < t - so_created o.
 Proof. exact run_ack_after_latency_static. Qed.
 Print Assumptions C07_run_ack_after_latency_static.
+(* 3b. "until then a new order is pending with no fills", in every reachable state of a run (static hypotheses): an order whose placement package
+       has not been executed is exactly as created and invisible to the matcher *)
+Theorem C07_unplaced_order_is_untouched_static : forall tb cf n sc es s,
+  cfg_ok_b cf = true -> initial_b s = true -> forallb (event_b2 sc n) es = true -> keys_ok_b sc n es = true ->
+  forall m o, In m (s_markets (fold_left (step tb cf n sc) es s)) -> In o (mk_orders m) -> so_placed o = None ->
+  so_frags o = [] /\ so_matched o = 0 /\ so_cancelled o = 0 /\ so_lapsed o = 0 /\ so_voided o = 0 /\ so_bet o = None /\
+  status_in (so_status o) (cf_mw_live cf) = false.
+Proof. exact run_unplaced_untouched_static. Qed.
+Print Assumptions C07_unplaced_order_is_untouched_static.
 
 Definition c07_script := [(0, 0, 1, [APlace 1 1 Back (OLimit 20000 200 PLapse false None) None])].
 Theorem C07_fragment_time_refuted :
